@@ -517,4 +517,3 @@ func execContext(ops []string, mon *Mon) []string {
 	}
 	return out
 }
-
